@@ -87,6 +87,9 @@ func HandShards() map[string]HandShard {
 		// empty child shards (no writer emits them; a decodable block all the same)
 		// next to ordinary ones
 		"irregular empty-child": hs(16, hv(1, "top"), hc(3, hs(16)), hc(5, hs(16, hv(2, "x"), hv(9, "y"))), hc(7, hs(16)), hc(9, hs(16, hv(1, "z"))), hc(12, hs(16))),
+		// two child shards filed under one slot (dag-pb keeps links with equal
+		// names; both subtrees belong to the directory)
+		"irregular duplicate-slot": hs(16, hv(1, "top"), hc(3, hs(16, hv(2, "x"))), hc(3, hs(16, hv(4, "y"), hc(6, hs(16, hv(1, "deep"))))), hc(5, hs(16, hv(9, "z")))),
 		// uniform, for comparison (same writer)
 		"uniform 16>16": hs(16, hv(1, "top"), hc(3, hs(16, hv(0xA, "q"), hc(0xB, hs(16, hv(1, "x")))))),
 	}
